@@ -90,6 +90,36 @@ CLAIMS = {
         "note": TRUSTED,
         "technique": "CFG must-pass-through per phase, configuration plumbing tables, double-checked-locking shape check, who-may-call/write",
     },
+    "C15": {
+        "text": "Information-flow analysis over the report writers of the current source: every use of the request URI and "
+                "of request/response headers in vcr_writer / har_writer is either sanitized (sanitize_url, "
+                "deepclone+sanitize_value) on the sanitize_output arm or raw only on the off arm, formatting closures "
+                "selected when the flag is on sanitize their argument, derived values (query string, cookies) come from "
+                "the sanitized variables; as_curl_command passes output_config.sanitize into prepare_request which "
+                "sanitizes url/headers/cookies/params before the request object is built; --output-sanitize reaches both "
+                "configs and the writer thread; the sanitizer lower-cases keys, matches exact keys or markers, replaces "
+                "scalars and lists, recurses, redacts the authority whenever userinfo is present; the console header shows "
+                "the base URL through sanitize_url. Not decided: secrets inside bodies (not in the property), "
+                "user-defined handlers, completeness of the key/marker lists beyond the names the property enumerates.",
+        "design_ref": "DESIGN.md §4 C15",
+        "note": TRUSTED,
+        "technique": "flag-guarded taint flow (source -> sanitizer -> sink) over the writer functions, plumbing of the sanitize flag",
+    },
+    "C16": {
+        "text": "Flow / producer-consumer / totality analysis of the report writers in the current source: every non-constant "
+                "part interpolated into the hand-built YAML is produced by the double-quoted writer or json.dumps or has a "
+                "type that is YAML-safe by construction (annotations and enum member literals re-verified on every run); "
+                "the conditionally written Statistic.failures mapping is only subscripted under a membership guard; HAR "
+                "and JUnit go through their libraries; exactly one loop over recorder.interactions writes one entry per "
+                "iteration with no skipping path; preserve-bytes arms use base64 of the raw bytes on both sides; network-"
+                "controlled bytes are decoded with an error handler and dynamic codec names are guarded; sanitized URLs "
+                "are not re-parsed; handlers are shut down in finally and format dispatch is not crossed. Not decided: "
+                "byte-exactness of the YAML escaping table, timing of the writer thread (join timeout), XML validity "
+                "inside junit_xml.",
+        "design_ref": "DESIGN.md §4 C16",
+        "note": TRUSTED + "; table of YAML-safe fields in sa/rules/c16.py",
+        "technique": "taint flow into hand-built YAML with encoder/safe-type classification, producer/consumer guard check, CFG must-pass per interaction loop",
+    },
     "C19": {
         "text": "Decides, on all paths of the current source, the structural clauses behind 'extensions apply exactly where "
                 "their own filters say': closure-cell ownership of the per-registration FilterSet in to_filterable_hook "
